@@ -257,7 +257,7 @@ Proof.
     exact (Hnames _ _ Hb Hne). }
   destruct (allocated_exec default_cfg ir lst _ 1 (proj1 default_cfg_ok) Hwfir Elst Hcons) as (qa & temps & Ealloc & _).
   (* assemble *)
-  unfold gen. rewrite wf_script_eq in Hw. rewrite (roundtrip t Hw). cbn [obind]. rewrite Hhuge.
+  unfold gen. rewrite wf_script_eq in Hw. rewrite (roundtrip t Hw). cbn [obind]. rewrite ?Hhuge.
   assert (Eprep : exists d, prepare default_cfg t = Ok d).
   { unfold prepare. rewrite Etrans. cbn [obind]. rewrite Eval. cbn [obind]. rewrite Ealloc. cbn [obind fst snd].
     assert (Ecq : compile qa = Ok (map cop p)).
